@@ -372,6 +372,18 @@ class VEnum(V):
         self.start = start
 
 
+class VExt(V):
+    """an object of an external (stdlib) class modelled by a table of builtin methods"""
+    t = None
+
+    def __init__(self, tag, attrs=None):
+        self.tag = tag
+        self.attrs = dict(attrs or {})
+
+
+REC_METHODS = {}   # (record-name prefix, method name) -> impl(I, rec, args, kw)
+
+
 class VFile(V):
     t = None
 
@@ -424,6 +436,12 @@ def get_attribute(I, o, name, default=_NOCONST):
     elif isinstance(o, VRec):
         if name in o.fields:
             return o.fields[name]
+        for (prefix, mname), impl in REC_METHODS.items():
+            if mname == name and o.t.nm.startswith(prefix):
+                return VFunc("builtin", name, impl=lambda I2, a, k, impl=impl, o=o: impl(I2, o, a, k))
+    elif isinstance(o, VExt):
+        if name in o.attrs:
+            return o.attrs[name]
     elif isinstance(o, (VSeq, VEmptyList)):
         if name in SEQ_METHODS:
             return VFunc("bmethod", name, selfv=o)
@@ -444,6 +462,9 @@ def get_attribute(I, o, name, default=_NOCONST):
         if v is not None:
             return v
     elif isinstance(o, VClass):
+        if name == "__name__":
+            dn = getattr(o, "dyn_name", None)
+            return dn if dn is not None else VStr(o.name)
         if o.node is not None:
             ci = o.module.classes.get(o.name)
             r = ci.find_method(name) if ci else None
@@ -472,9 +493,24 @@ def get_attribute(I, o, name, default=_NOCONST):
 
 # =============================================================== calls
 
+def callable_un_func(I, f):
+    """values of an uninterpreted sort declared `callable=<funtype>`: a VFunc obeying that contract"""
+    if isinstance(f, VUn) and f.t.nm in I.ver.reg.callable_uns:
+        g = VFunc("param", f.t.nm, contract=I.ver.fun_contract(I.ver.reg.callable_uns[f.t.nm]))
+        g.selfv = f
+        return g
+    return None
+
+
 def call(I, f, args, kwargs, node=None):
     if not I.spec:
         f = I.force(f)
+    elif isinstance(f, VOptObj):
+        f = f.obj
+    if isinstance(f, VUn):
+        g = callable_un_func(I, f)
+        if g is not None:
+            f = g
     if isinstance(f, VFunc):
         if f.kind == "ast" and getattr(f, "qual", None) in I.ver.reg.opaques and \
                 not (I.ver.cur is not None and I.ver.cur.key == f.qual and not I.fn_stack[1:]):
@@ -595,12 +631,18 @@ def call_param(I, f, args, kwargs):
     c = f.contract
     if c is None:
         raise Unsupported("call of function parameter %s without contract" % f.name)
-    env = Env(I.ghost_env, None)
+    env = Env(getattr(I, "ghost_env", None), None)
     for i, pn in enumerate(c.params):
         if i < len(args):
             env.set(pn, args[i])
         elif pn in kwargs:
             env.set(pn, kwargs[pn])
+    if f.selfv is not None:
+        env.set("self_fn", f.selfv)
+    if I.spec:
+        if c.pure_result is None:
+            raise Unsupported("call of function parameter %s in a specification (no pure_result declared)" % f.name)
+        return I.eval_spec_value(c.pure_result, env)
     caller = I.cur_obl_prefix()
     for nm, src in c.requires:
         I.path.prove(I.eval_spec(src, env), "%s/call:%s/pre:%s" % (caller, c.short, nm), "call-pre", where=src)
@@ -613,7 +655,11 @@ def call_param(I, f, args, kwargs):
         if I.path.branch(b):
             for st in c.effects_exc:
                 I.exec_ghost(st, env)
-            raise PyRaise(VExc(cls, [], any_subclass=True))
+            ex = VExc(cls, [], any_subclass=True)
+            if c.exc_info is not None:
+                ex.tname = I.eval_spec_value(c.exc_info[0], env)
+                ex.msg = I.eval_spec_value(c.exc_info[1], env)
+            raise PyRaise(ex)
     res = VNone()
     if c.returns is not None:
         res = I.fresh_value(I.ver.types.parse(c.returns), "ret_" + c.short)
@@ -800,6 +846,12 @@ def bi_str(I, args, kw):
         return VStr("None")
     if isinstance(v, VBool):
         return VStr(z3.If(v.e, z3.StringVal("True"), z3.StringVal("False")))
+    if isinstance(v, VExc):
+        m = getattr(v, "msg", None)
+        if m is None:
+            # str(exc) of an exception we know nothing about: an arbitrary string, fixed per exception object
+            m = v.msg = VStr(I.path.fresh("exc_str", z3.StringSort()))
+        return m
     return I.ver.opaque_str("str", v, I)
 
 
@@ -939,6 +991,8 @@ def bi_callable(I, args, kw):
     if isinstance(v, VObj):
         ci = I.class_of(v)
         return VBool(bool(ci and ci.find_method("__call__")))
+    if callable_un_func(I, v) is not None:
+        return VBool(True)
     return VBool(False)
 
 
@@ -1120,6 +1174,9 @@ def sort_seq(I, v, key):
     p.assume(z3.ForAll([i, j], z3.Implies(z3.And(0 <= i, i < j, j < n), le)))
     p.assume(z3.ForAll([i, j], z3.Implies(z3.And(0 <= i, i < j, j < n, keq), sg(i) < sg(j))))
     res.perm = (sg, sgi, v)
+    if not hasattr(p, "fn_witnesses"):
+        p.fn_witnesses = []
+    p.fn_witnesses.append(sg)
     return res
 
 
@@ -1188,6 +1245,13 @@ def bi_object(I, args, kw):
 
 def bi_type(I, args, kw):
     v = I.force(args[0])
+    if isinstance(v, VExc):
+        c = VClass(v.cls, exc_base=EXC_PARENT.get(v.cls) or "BaseException")
+        tn = getattr(v, "tname", None)
+        if tn is None and v.any_subclass:
+            tn = v.tname = VStr(I.path.fresh("exc_type_name", z3.StringSort()))
+        c.dyn_name = tn
+        return c
     for nm in ("bool", "int", "float", "str", "NoneType", "dict", "list", "tuple", "set"):
         if _isinst(I, v, nm) and not (nm == "int" and isinstance(v, VBool)):
             return VClass(nm)
@@ -1200,6 +1264,45 @@ def bi_type(I, args, kw):
 
 def bi_print(I, args, kw):
     return VNone()
+
+
+def bi_super(I, args, kw):
+    """zero-argument super() inside a method of a repository class: attribute lookup continues in the bases.
+    Only what the verified code needs is modelled: a method found in a repository base class, or the builtin
+    (Base)Exception.__init__ (stores `args`)."""
+    if args:
+        raise Unsupported("super(cls, obj)")
+    f = I.fn_stack[-1] if getattr(I, "fn_stack", None) else None
+    selfv = getattr(f, "selfv", None)
+    owner = I.ver.class_of_method(f.node) if f is not None else None
+    if owner is None or selfv is None:
+        raise Unsupported("super() outside a method")
+    attrs = {}
+    seen = False
+    stack = list(owner.bases)
+    names = set()
+    while stack:
+        b = stack.pop(0)
+        ci = owner.module.classes.get(b)
+        if ci is None:
+            v = I.ver.module_name(owner.module, b, I)
+            ci = v.module.classes.get(v.name) if isinstance(v, VClass) and v.node is not None else None
+        if ci is not None:
+            for mn, node in ci.methods.items():
+                if mn not in attrs:
+                    g = VFunc("ast", "%s.%s" % (ci.name, mn), node=node, module=ci.module, selfv=selfv)
+                    g.qual = "%s:%s.%s" % (ci.module.relpath, ci.name, mn)
+                    attrs[mn] = g
+            stack.extend(ci.bases)
+        elif b in EXC_PARENT:
+            seen = True
+    if seen and "__init__" not in attrs:
+        def exc_init(I2, a, k, selfv=selfv):
+            if isinstance(selfv, VObj):
+                selfv.fields["args"] = VTuple(list(a))
+            return VNone()
+        attrs["__init__"] = VFunc("builtin", "Exception.__init__", impl=exc_init)
+    return VExt("super", attrs)
 
 
 def bi_zip(I, args, kw):
@@ -1241,7 +1344,7 @@ BUILTIN_FUNCS = {
     "setattr": bi_setattr, "callable": bi_callable, "list": bi_list, "tuple": bi_tuple, "dict": bi_dict,
     "set": bi_set, "sorted": bi_sorted, "enumerate": bi_enumerate, "range": bi_range, "iter": bi_iter,
     "round": bi_round, "sum": bi_sum, "any": bi_any_all(True), "all": bi_any_all(False), "id": bi_id,
-    "hash": bi_hash, "object": bi_object, "type": bi_type, "print": bi_print, "zip": bi_zip,
+    "hash": bi_hash, "object": bi_object, "type": bi_type, "print": bi_print, "zip": bi_zip, "super": bi_super,
     "deque": bi_deque, "OrderedDict": None,
 }
 BUILTIN_TYPES = {"int": bi_int, "float": bi_float, "bool": bi_bool, "str": bi_str, "list": bi_list,
